@@ -405,7 +405,7 @@ def ob_constants():
 
 def obligations(tier):
     q = tier == "quick"
-    primes = [11, 19, 23, 43] if q else [p for p in range(7, 252) if p % 4 == 3 and all(p % k for k in range(2, int(p ** 0.5) + 1))]
+    primes = [11, 19, 23, 43] if q else [p for p in range(11, 252) if p % 4 == 3 and all(p % k for k in range(2, int(p ** 0.5) + 1))]
     obs = [Ob("O0-constants", ob_constants), Ob("O1-sign-bip340", ob_sign, replay="sign"), Ob("O2-verify-bip340", ob_verify, replay="verify"),
            Ob("O3-s-range", ob_s_range, replay="s_range")]
     for i in range(0, len(primes), 4):
